@@ -33,8 +33,8 @@ func Clone(v any) any {
 	}
 }
 
-// Canon renders a tree as a type-exact canonical string: keys sorted, every
-// number tagged with its Go type so that int 1, int64 1 and float64 1 differ.
+// Canon renders a tree as a canonical string: keys sorted, floats tagged so that the
+// integer 1 and the float 1.0 differ (the width of a Go integer type is not observed).
 func Canon(v any) string {
 	var b strings.Builder
 	canon(&b, v, true)
@@ -65,15 +65,10 @@ func canon(b *strings.Builder, v any, exact bool) {
 	case int:
 		b.WriteString(strconv.Itoa(x))
 	case int64:
+		// the Go integer type is not part of any property: int and int64 of one value are equal
 		b.WriteString(strconv.FormatInt(x, 10))
-		if exact {
-			b.WriteString("#i64")
-		}
 	case uint64:
 		b.WriteString(strconv.FormatUint(x, 10))
-		if exact {
-			b.WriteString("#u64")
-		}
 	case float32:
 		canonFloat(b, float64(x), exact, "#f32")
 	case float64:
